@@ -192,13 +192,30 @@ def nested_single_group_names():
     return sorted(out)
 
 
+def required_repeatable_member_names():
+    """structure names with a segment that is required AND repeatable (1, -1) inside a group: its second occurrence stays in the
+    same group instance (a test on the cardinality that reads the wrong end of the pair gets it wrong)"""
+    out = set()
+    for v, m in message_cells():
+        def rec(ref, inside):
+            for n, r, (mn, mx), kind in T.struct_children(ref):
+                if kind == 'GRP':
+                    rec(r, True)
+                elif inside and mn >= 1 and mx == -1 and G._seg_ok(v, n):
+                    out.add(m)
+        rec(T.message_ref(v, m), False)
+    return sorted(out)
+
+
 def plan(tier, seed):
     import random
     names = sorted(set(m for v, m in message_cells()))
     rnd = random.Random(seed)
     if tier == 'quick':
         special = nested_single_group_names()
-        sample = rnd.sample(special, min(len(special), 12)) + rnd.sample([n for n in names if n not in special], 20)
+        special2 = [n for n in required_repeatable_member_names() if n not in special]
+        chosen = rnd.sample(special, min(len(special), 12)) + rnd.sample(special2, min(len(special2), 6))
+        sample = chosen + rnd.sample([n for n in names if n not in chosen], 16)
         rnd.shuffle(sample)
         return [{'names': sample[i::16], 'seed': seed * 1000 + i, 'n': 4, 'shrink': False} for i in range(16)]
     rnd.shuffle(names)
